@@ -26,6 +26,8 @@ def main():
         m = json.load(open(d))
         n = os.path.basename(os.path.dirname(d))
         first = "missed, then caught" if m["check_result"].startswith("MISSED") else ("pending" if m["check_result"] == "pending" else "caught")
+        if m.get("status") == "neutralised":
+            first += "; neutralised by a later fix"
         rows.append(f"| {n} | {m['needs_to_manifest'][:170].replace('|', '/')} | {first} | {m['check_result'][:300].replace('|', '/')} |")
     seeds = "\n".join(rows)
     p = os.path.join(HERE, "DESIGN.md")
